@@ -230,18 +230,32 @@ def cat_bad_attributes(rng):
 
 
 def cat_type_errors(rng):
-    exprs = [
-        "true + 1", "1 == true", "x && 1", "1 ? 2 : 3", "$max(true, 1)", "x.y",
-        "Kind.AA + 1", "x < Kind.AA", "true ? 1 : false", "-true", "x[0]",
-        "$present(1)", "0xffff_ffff_ffff_ffff + x", "x * x * x * x * x * x * x * x * x",
+    """A few expressions of the wrong type among well-typed ones (each wrong one is caught by a
+    different rule, so there are at most two per file: more would only mask each other)."""
+    bad = [
+        "true + 1", "1 == true", "x && 1", "1 ? 2 : 3", "$max(true, 1)", "Kind.AA + 1", "x < Kind.AA", "true ? 1 : false", "-true",
+        "$present(1)", "0xffff_ffff_ffff_ffff + x", "x * x * x * x * x * x * x * x * x", "$upper_bound(true)", "$present(x) + 1",
+        "Kind.AA == Other.CC", "(x == 1) == Kind.AA", "$max()", "$lower_bound(x, x)", "x ? x : x",
     ]
-    lines = [_hdr(rng), "enum Kind:\n  AA = 1\n  BB = 2", f"struct {camel(rng)}:", "  0 [+1]  UInt  x"]
-    for i in range(rng.randint(1, 5)):
-        lines.append(f"  let v{i} = {rng.choice(exprs)}")
+    rare = ["x.y", "x[0]", "nope + 1", "Kind.ZZ == Kind.AA"]
+    ok = ["x + 1", "x == 1", "Kind.AA == Kind.BB", "$max(x, 3)", "(x < 3) && (x > 1)", "x < 3 ? x : 3", "$present(x)", "$upper_bound(x) + 1", "x * 2 - 1"]
+    lines = [_hdr(rng), "enum Kind:\n  AA = 1\n  BB = 2", "enum Other:\n  CC = 1"]
+    if rng.random() < 0.3:
+        # enum values of the wrong type, and values that depend on them
+        lines.append("enum Odd:\n  ON = " + rng.choice(["true", "1 == 1", "Kind.AA", "Kind.AA == Kind.BB"]) + "\n  NEXT = ON\n  SUM = " + rng.choice(["ON + 1", "Kind.BB", "2"]))
+        ok = ok + ["Odd.ON == Odd.ON", "Odd.NEXT == Odd.SUM"]
+        bad = ["x == Odd.ON"] if rng.random() < 0.3 else []  # the odd enum is this file's flaw
+    picks = [rng.choice(ok) for _ in range(rng.randint(1, 4))] + [rng.choice(bad) for _ in range(rng.choice([0, 1, 1, 2]) if bad else 0)]
+    if rng.random() < 0.15:
+        picks.append(rng.choice(rare))
+    rng.shuffle(picks)
+    lines += [f"struct {camel(rng)}:", "  0 [+1]  UInt  x"]
+    for i, e in enumerate(picks):
+        lines.append(f"  let v{i} = {e}")
     if rng.random() < 0.5:
-        lines.append(f"  if {rng.choice(exprs)}:\n    1 [+1]  UInt  y")
+        lines.append(f"  if {rng.choice(['x == 1', 'x < 3 && x > 0', '$present(x)'] * 2 + bad[:6])}:\n    1 [+1]  UInt  y")
     if rng.random() < 0.5:
-        lines.append(f"  {rng.choice(exprs)} [+{rng.choice(exprs)}]  UInt:8[]  z")
+        lines.append(f"  {rng.choice(['2', 'x + 2', '$max(x, 2)'] * 2 + bad[:4])} [+{rng.choice(['x', '3', 'x * 2'] * 2 + bad[:4])}]  UInt:8[]  z")
     return {"m.emb": "\n".join(lines) + "\n"}, "m.emb", ["type_error"]
 
 
